@@ -26,6 +26,9 @@ pub use wire::DeserializeParams;
 
 #[cfg(feature = "process")]
 mod process;
+#[cfg(all(boreal_verif, feature = "process", target_os = "linux"))]
+#[doc(hidden)]
+pub use process::verif_process_memory;
 
 /// Holds a list of rules, and provides methods to run them on files or bytes.
 ///
